@@ -1237,7 +1237,7 @@ Section Fuel.
     assert (good_queue E ((k, p) :: rest)) as Hq' by (unfold good_queue; rewrite P; exact Hq).
     inversion Hq' as [|? ? [Hp Hk] Hrest]; subst. cbn in Hp, Hk.
     set (es := e_order E p (filter (usable E p) (e_offers E))).
-    pose proof (expand_sound E order_perm k p Hp Hk es rest cnt (edges_ok E order_perm p) Hrest) as Snd.
+    pose proof (expand_sound E k p Hp Hk es rest cnt (edges_ok E order_perm p) Hrest) as Snd.
     pose proof (expand_measure k p es rest cnt) as M.
     assert (length es + length p <= n) as Hes.
     { unfold es. rewrite (Permutation_length (order_perm _ _)). apply edges_bound. exact Hp. }
@@ -1274,4 +1274,304 @@ End Fuel.
 
 (* the fuel of the correspondence runs suffices for every problem with at most 7 offers *)
 Lemma default_fuel_enough : T 7 < default_fuel.
-Proof. vm_compute. repeat constructor. Qed.
+Proof. apply Nat.ltb_lt. vm_compute. reflexivity. Qed.
+
+Lemma terminates_l E : (forall p l, Permutation (e_order E p l) l) -> forall fuel a, T (length (e_offers E)) < fuel ->
+  adapt E fuel <> RFuel /\ run_api E fuel a <> OOutOfFuel.
+Proof. intros Hp fuel a H. split; [apply adapt_terminates; assumption|apply run_api_terminates; assumption]. Qed.
+
+(* ================= CPython's insertion sort is correct for strict weak orders ================= *)
+(* ... on the elements of the list: this pins down the extent of F21 — the specificity clause can only fail when two
+   applicable from-protocols at the same MRO distance are incomparable. *)
+Section PySortSWO.
+  Context {A : Type}.
+  Variable lt : A -> A -> bool.
+  Variable P : A -> Prop.
+  Hypothesis lt_trans : forall x y z, P x -> P y -> P z -> lt x y = true -> lt y z = true -> lt x z = true.
+  Hypothesis lt_ntrans : forall x y z, P x -> P y -> P z -> lt x y = false -> lt y z = false -> lt x z = false.
+  Hypothesis lt_asym : forall x y, P x -> P y -> lt x y = true -> lt y x = false.
+
+  (* no later element is smaller than an earlier one *)
+  Fixpoint nsorted (l : list A) : Prop :=
+    match l with [] => True | x :: r => (forall y, In y r -> lt y x = false) /\ nsorted r end.
+
+  Lemma nsorted_app l1 l2 : nsorted (l1 ++ l2) <->
+    nsorted l1 /\ nsorted l2 /\ (forall x y, In x l1 -> In y l2 -> lt y x = false).
+  Proof.
+    induction l1 as [|a l1 IH]; cbn.
+    - split; [intros H; repeat split; [exact H|intros x y []]|intros (_ & H & _); exact H].
+    - rewrite IH. split.
+      + intros (Ha & H1 & H2 & H12). repeat split; try assumption.
+        * intros y Hy. apply Ha. apply in_or_app. left. exact Hy.
+        * intros x y [<-|Hx] Hy; [apply Ha; apply in_or_app; right; exact Hy|apply H12; assumption].
+      + intros ((Ha & H1) & H2 & H12). repeat split; try assumption.
+        * intros y Hy. apply in_app_or in Hy. destruct Hy as [Hy|Hy]; [apply Ha; exact Hy|apply H12; [left; reflexivity|exact Hy]].
+        * intros x y Hx Hy. apply H12; [right; exact Hx|exact Hy].
+  Qed.
+
+  Definition nbelow (pivot : A) (l : list A) : Prop := forall x, In x l -> lt pivot x = false.
+  Definition nabove (pivot : A) (l : list A) : Prop := forall y, In y l -> lt y pivot = false.
+
+  Lemma Forall_firstn (Q : A -> Prop) k l : Forall Q l -> Forall Q (firstn k l).
+  Proof. intros H. rewrite Forall_forall in *. intros x Hx. apply H. rewrite <- (firstn_skipn k l). apply in_or_app. left. exact Hx. Qed.
+  Lemma Forall_skipn (Q : A -> Prop) k l : Forall Q l -> Forall Q (skipn k l).
+  Proof. intros H. rewrite Forall_forall in *. intros x Hx. apply H. rewrite <- (firstn_skipn k l). apply in_or_app. right. exact Hx. Qed.
+
+  Lemma bisect_swo fuel : forall pre pivot l r, nsorted pre -> Forall P pre -> P pivot ->
+    l <= r <= length pre -> r - l < fuel ->
+    nbelow pivot (firstn l pre) -> nabove pivot (skipn r pre) ->
+    let k := bisect lt fuel pre pivot l r in
+    k <= length pre /\ nbelow pivot (firstn k pre) /\ nabove pivot (skipn k pre).
+  Proof.
+    induction fuel as [|f IH]; intros pre pivot l r Hs HP Hpv Hlr Hf Hb Ha; [lia|]. cbn [bisect].
+    destruct (Nat.ltb_spec l r) as [Hlt|Hge].
+    2:{ assert (l = r) by lia. subst. cbn. repeat split; [lia|exact Hb|exact Ha]. }
+    set (p := l + Nat.div2 (r - l)).
+    assert (l <= p < r) as Hp.
+    { unfold p. destruct (r - l) eqn:Erl; [lia|].
+      assert (Nat.div2 (S n) <= n) by (apply Nat.div2_decr; lia). lia. }
+    destruct (nth_error pre p) as [x|] eqn:Hx.
+    2:{ apply nth_error_None in Hx. lia. }
+    destruct (nth_error_split pre p x Hx) as [Hsk Hfi].
+    assert (P x) as HPx by (rewrite Forall_forall in HP; apply HP; eapply nth_error_In; exact Hx).
+    pose proof Hs as Hs'. rewrite <- (firstn_skipn p pre) in Hs'. apply nsorted_app in Hs'. destruct Hs' as (S1 & S2 & S12).
+    pose proof (Forall_skipn P p pre HP) as HPs. pose proof (Forall_firstn P p pre HP) as HPf.
+    rewrite Forall_forall in HPs, HPf.
+    destruct (lt pivot x) eqn:L.
+    - apply IH; try assumption; [lia|lia|].
+      intros y Hy. rewrite Hsk in Hy, S2. destruct Hy as [<-|Hy]; [apply lt_asym; assumption|].
+      destruct S2 as [Sx _]. specialize (Sx y Hy).
+      assert (P y) as HPy by (apply HPs; rewrite Hsk; right; exact Hy).
+      destruct (lt y pivot) eqn:Lyp; [|reflexivity].
+      rewrite (lt_trans y pivot x HPy Hpv HPx Lyp L) in Sx. discriminate.
+    - apply IH; try assumption; [lia|lia|].
+      intros y Hy. rewrite Hfi in Hy. apply in_app_or in Hy. destruct Hy as [Hy|[<-|[]]]; [|exact L].
+      assert (lt x y = false) as Hxy by (apply S12; [exact Hy|rewrite Hsk; left; reflexivity]).
+      apply (lt_ntrans pivot x y Hpv HPx (HPf y Hy) L Hxy).
+  Qed.
+
+  Lemma insert_at_nsorted pre k pivot : nsorted pre ->
+    nbelow pivot (firstn k pre) -> nabove pivot (skipn k pre) -> nsorted (insert_at pre k pivot).
+  Proof.
+    intros Hs Hb Ha. unfold insert_at. rewrite <- (firstn_skipn k pre) in Hs. apply nsorted_app in Hs.
+    destruct Hs as (S1 & S2 & S12). apply nsorted_app. split; [exact S1|]. split.
+    - cbn. split; [exact Ha|exact S2].
+    - intros x y Hx [<-|Hy]; [apply Hb; exact Hx|apply S12; assumption].
+  Qed.
+
+  Lemma insert_at_Forall (Q : A -> Prop) pre k x : Forall Q pre -> Q x -> Forall Q (insert_at pre k x).
+  Proof.
+    intros H Hx. unfold insert_at. apply Forall_app. split; [apply Forall_firstn; exact H|].
+    constructor; [exact Hx|apply Forall_skipn; exact H].
+  Qed.
+
+  Lemma binarysort_nsorted rest : forall pre, nsorted pre -> Forall P pre -> Forall P rest -> nsorted (binarysort lt pre rest).
+  Proof.
+    induction rest as [|x rest IH]; intros pre Hs HP HR; cbn [binarysort]; [exact Hs|].
+    inversion HR as [|? ? Hx HR']; subst.
+    destruct (bisect_swo (S (length pre)) pre x 0 (length pre) Hs HP Hx) as (_ & Hb & Ha); try lia.
+    - intros y [].
+    - rewrite skipn_all. intros y [].
+    - apply IH; [apply insert_at_nsorted; assumption|apply insert_at_Forall; assumption|exact HR'].
+  Qed.
+
+  Fixpoint nasc_from (last : A) (l : list A) : Prop :=
+    match l with [] => True | x :: r => lt x last = false /\ nasc_from x r end.
+  Fixpoint ndesc_from (last : A) (l : list A) : Prop :=
+    match l with [] => True | x :: r => lt x last = true /\ ndesc_from x r end.
+
+  Lemma nasc_nsorted l : forall a, nasc_from a l -> Forall P (a :: l) -> nsorted (a :: l).
+  Proof.
+    induction l as [|x l IH]; intros a H HP; cbn; [split; [intros y []|exact I]|].
+    destruct H as [Hxa Hx]. inversion HP as [|? ? Pa HP']; subst. specialize (IH x Hx HP').
+    cbn in IH. destruct IH as [Hxl Hl]. split; [|split; assumption].
+    inversion HP' as [|? ? Px HPl]; subst. rewrite Forall_forall in HPl.
+    intros y [<-|Hy]; [exact Hxa|]. apply (lt_ntrans y x a (HPl y Hy) Px Pa (Hxl y Hy) Hxa).
+  Qed.
+  Lemma ndesc_rev l : forall a, ndesc_from a l -> Forall P (a :: l) ->
+    nsorted (rev (a :: l)) /\ (forall y, In y l -> lt y a = true).
+  Proof.
+    induction l as [|x l IH]; intros a H HP.
+    - cbn. split; [split; [intros y []|exact I]|intros y []].
+    - destruct H as [Hxa Hx]. inversion HP as [|? ? Pa HP']; subst. destruct (IH x Hx HP') as [Hs Hlt].
+      inversion HP' as [|? ? Px HPl]; subst. rewrite Forall_forall in HPl.
+      assert (forall y, In y (x :: l) -> lt y a = true) as Hall.
+      { intros y [<-|Hy]; [exact Hxa|]. apply (lt_trans y x a (HPl y Hy) Px Pa (Hlt y Hy) Hxa). }
+      split; [|exact Hall].
+      change (rev (a :: x :: l)) with (rev (x :: l) ++ [a]). apply nsorted_app. split; [exact Hs|]. split.
+      + cbn. split; [intros y []|exact I].
+      + intros y z Hy [<-|[]]. apply in_rev in Hy.
+        assert (P y) as Py by (destruct Hy as [<-|Hy]; [exact Px|apply HPl; exact Hy]).
+        apply lt_asym; [exact Py|exact Pa|apply Hall; exact Hy].
+  Qed.
+
+  Lemma run_asc_nasc l : forall last, nasc_from last (fst (run_asc lt last l)).
+  Proof.
+    induction l as [|x l IH]; intros last; cbn; [exact I|].
+    destruct (lt x last) eqn:L; [exact I|]. specialize (IH x). destruct (run_asc lt x l). cbn in *. split; [exact L|exact IH].
+  Qed.
+  Lemma run_desc_ndesc l : forall last, ndesc_from last (fst (run_desc lt last l)).
+  Proof.
+    induction l as [|x l IH]; intros last; cbn; [exact I|].
+    destruct (lt x last) eqn:L; [|exact I]. specialize (IH x). destruct (run_desc lt x l). cbn in *. split; [exact L|exact IH].
+  Qed.
+
+  Theorem py_sort_nsorted l : Forall P l -> nsorted (py_sort lt l).
+  Proof.
+    intros HP. destruct l as [|a [|b l]]; cbn [py_sort]; [exact I|split; [intros y []|exact I]|].
+    inversion HP as [|? ? Pa HP1]; subst. inversion HP1 as [|? ? Pb HP2]; subst.
+    destruct (lt b a) eqn:L.
+    - pose proof (run_desc_ndesc l b) as R. pose proof (run_desc_app lt l b) as App.
+      destruct (run_desc lt b l) as [r t]. cbn in R, App.
+      assert (Forall P r /\ Forall P t) as [Pr Pt] by (rewrite <- App in HP2; apply Forall_app in HP2; exact HP2).
+      assert (ndesc_from a (b :: r)) as D by (split; [exact L|exact R]).
+      assert (Forall P (a :: b :: r)) as PA by (constructor; [exact Pa|constructor; [exact Pb|exact Pr]]).
+      apply binarysort_nsorted; [apply (ndesc_rev (b :: r) a D PA)| |exact Pt].
+      apply Forall_rev. exact PA.
+    - pose proof (run_asc_nasc l b) as R. pose proof (run_asc_app lt l b) as App.
+      destruct (run_asc lt b l) as [r t]. cbn in R, App.
+      assert (Forall P r /\ Forall P t) as [Pr Pt] by (rewrite <- App in HP2; apply Forall_app in HP2; exact HP2).
+      assert (Forall P (a :: b :: r)) as PA by (constructor; [exact Pa|constructor; [exact Pb|exact Pr]]).
+      apply binarysort_nsorted; [|exact PA|exact Pt].
+      apply (nasc_nsorted (b :: r) a); [split; [exact L|exact R]|exact PA].
+  Qed.
+End PySortSWO.
+
+(* ---------- the code's comparator is a strict weak order when same-distance from-protocols are comparable ---------- *)
+Section EdgeOrder.
+  Variable sub : ty -> ty -> bool.
+  Variable dist : ty -> ty -> nat.
+  Variable cur : ty.
+  Variable l : list offer.          (* the applicable offers *)
+
+  (* on the from-protocols of the applicable offers: issubclass is antisymmetric and transitive, and two different
+     from-protocols at the same MRO distance are always related one way or the other *)
+  Definition froms_comparable : Prop :=
+    (forall o1 o2, In o1 l -> In o2 l -> ofrom o1 <> ofrom o2 -> sub (ofrom o1) (ofrom o2) = true -> sub (ofrom o2) (ofrom o1) = false)
+    /\ (forall o1 o2 o3, In o1 l -> In o2 l -> In o3 l ->
+          sub (ofrom o1) (ofrom o2) = true -> sub (ofrom o2) (ofrom o3) = true -> sub (ofrom o1) (ofrom o3) = true)
+    /\ (forall o1 o2, In o1 l -> In o2 l -> dist cur (ofrom o1) = dist cur (ofrom o2) -> ofrom o1 <> ofrom o2 ->
+          sub (ofrom o1) (ofrom o2) = true \/ sub (ofrom o2) (ofrom o1) = true).
+  Hypothesis Hc : froms_comparable.
+
+  Definition is_edge (e : nat * offer) : Prop := In (snd e) l /\ fst e = dist cur (ofrom (snd e)).
+
+  Ltac edges := unfold is_edge, edge_lt in *; cbn [fst snd] in *.
+
+  Lemma edge_lt_true (x y : nat * offer) : edge_lt sub x y = true <->
+    fst x < fst y \/ (fst x = fst y /\ ofrom (snd x) <> ofrom (snd y) /\ sub (ofrom (snd x)) (ofrom (snd y)) = true).
+  Proof.
+    destruct x as [d1 o1], y as [d2 o2]. edges. rewrite orb_true_iff, !andb_true_iff, Nat.ltb_lt, Nat.eqb_eq, negb_true_iff, Nat.eqb_neq.
+    tauto.
+  Qed.
+
+  Lemma edge_lt_asym x y : is_edge x -> is_edge y -> edge_lt sub x y = true -> edge_lt sub y x = false.
+  Proof.
+    intros [Ix Dx] [Iy Dy] H. apply edge_lt_true in H. destruct (edge_lt sub y x) eqn:R; [|reflexivity].
+    apply edge_lt_true in R. destruct Hc as (Ha & _ & _).
+    destruct H as [H|(He & Hn & Hs)], R as [R|(Re & Rn & Rs)]; try lia.
+    rewrite (Ha _ _ Ix Iy Hn Hs) in Rs. discriminate.
+  Qed.
+
+  Lemma edge_lt_trans x y z : is_edge x -> is_edge y -> is_edge z ->
+    edge_lt sub x y = true -> edge_lt sub y z = true -> edge_lt sub x z = true.
+  Proof.
+    intros [Ix Dx] [Iy Dy] [Iz Dz] H1 H2. apply edge_lt_true in H1. apply edge_lt_true in H2. apply edge_lt_true.
+    destruct Hc as (Ha & Ht & _).
+    destruct H1 as [H1|(E1 & N1 & S1)], H2 as [H2|(E2 & N2 & S2)]; try (left; lia).
+    right. split; [lia|]. split; [|apply (Ht _ _ _ Ix Iy Iz S1 S2)].
+    intros Heq. rewrite <- Heq in S2. rewrite (Ha _ _ Ix Iy N1 S1) in S2. discriminate.
+  Qed.
+
+  Lemma edge_lt_ntrans x y z : is_edge x -> is_edge y -> is_edge z ->
+    edge_lt sub x y = false -> edge_lt sub y z = false -> edge_lt sub x z = false.
+  Proof.
+    intros [Ix Dx] [Iy Dy] [Iz Dz] H1 H2. destruct (edge_lt sub x z) eqn:R; [|reflexivity]. exfalso.
+    apply edge_lt_true in R. destruct Hc as (Ha & Ht & Hcmp).
+    assert (forall a b, edge_lt sub a b = false -> ~ (fst a < fst b) /\
+              ~ (fst a = fst b /\ ofrom (snd a) <> ofrom (snd b) /\ sub (ofrom (snd a)) (ofrom (snd b)) = true)) as Hf.
+    { intros a b Hab. split; intros Hx; assert (edge_lt sub a b = true) by (apply edge_lt_true; tauto); congruence. }
+    destruct (Hf _ _ H1) as [A1 B1]. destruct (Hf _ _ H2) as [A2 B2].
+    destruct R as [R|(Re & Rn & Rs)]; [lia|].
+    assert (fst x = fst y) as Exy by lia. assert (fst y = fst z) as Eyz by lia.
+    destruct (Nat.eq_dec (ofrom (snd x)) (ofrom (snd y))) as [Fxy|Fxy].
+    - apply B2. split; [exact Eyz|]. rewrite <- Fxy. split; assumption.
+    - destruct (Nat.eq_dec (ofrom (snd y)) (ofrom (snd z))) as [Fyz|Fyz].
+      + apply B1. split; [exact Exy|]. rewrite Fyz. split; [rewrite <- Fyz; exact Fxy|exact Rs].
+      + (* all three different: y below x and z below y, hence z below x, against x below z *)
+        assert (sub (ofrom (snd y)) (ofrom (snd x)) = true) as Syx.
+        { destruct (Hcmp _ _ Ix Iy ltac:(congruence) Fxy) as [S|S]; [|exact S]. exfalso. apply B1. tauto. }
+        assert (sub (ofrom (snd z)) (ofrom (snd y)) = true) as Szy.
+        { destruct (Hcmp _ _ Iy Iz ltac:(congruence) Fyz) as [S|S]; [|exact S]. exfalso. apply B2. tauto. }
+        pose proof (Ht _ _ _ Iz Iy Ix Szy Syx) as Szx.
+        rewrite (Ha _ _ Ix Iz Rn Rs) in Szx. discriminate.
+  Qed.
+End EdgeOrder.
+
+Lemma order_py_no_inversion sub dist all cur l l1 o1 l2 o2 l3 :
+  froms_comparable sub dist cur l ->
+  order_py sub dist all cur l = l1 ++ o1 :: l2 ++ o2 :: l3 ->
+  edge_lt sub (dist cur (ofrom o2), o2) (dist cur (ofrom o1), o1) = false.
+Proof.
+  intros Hc. unfold order_py. set (G := group_by (map ofrom all) l).
+  set (L := map (fun o0 => (dist cur (ofrom o0), o0)) G). intros Hm.
+  assert (Forall (is_edge dist cur l) L) as HP.
+  { apply Forall_forall. intros e He. apply in_map_iff in He. destruct He as (x & <- & Hx). split; [|reflexivity].
+    cbn. apply (Permutation_in _ (group_by_perm (map ofrom all) l)). exact Hx. }
+  pose proof (py_sort_nsorted (edge_lt sub) (is_edge dist cur l)
+                (edge_lt_trans sub dist cur l Hc) (edge_lt_ntrans sub dist cur l Hc) (edge_lt_asym sub dist cur l Hc) L HP) as Hs.
+  assert (forall e, In e (py_sort (edge_lt sub) L) -> fst e = dist cur (ofrom (snd e))) as Hkey.
+  { intros e He. apply (Permutation_in _ (py_sort_perm (edge_lt sub) _)) in He. rewrite Forall_forall in HP. apply (HP e He). }
+  apply map_eq_app in Hm. destruct Hm as (P1 & P2' & HPs & _ & Hm2).
+  apply map_eq_cons in Hm2. destruct Hm2 as (e1 & P2 & -> & He1 & Hm3).
+  apply map_eq_app in Hm3. destruct Hm3 as (P2a & P2b & -> & _ & Hm4).
+  apply map_eq_cons in Hm4. destruct Hm4 as (e2 & P3 & -> & He2 & _).
+  rewrite HPs in Hs, Hkey. apply nsorted_app in Hs. destruct Hs as (_ & Hs & _). cbn in Hs. destruct Hs as [Hs _].
+  assert (In e2 (P2a ++ e2 :: P3)) as Hin by (apply in_or_app; right; left; reflexivity).
+  specialize (Hs e2 Hin).
+  assert (e1 = (dist cur (ofrom o1), o1)) as ->.
+  { destruct e1 as [d o]. cbn in He1. subst o. f_equal. apply (Hkey (d, o1)). apply in_or_app. right. left. reflexivity. }
+  assert (e2 = (dist cur (ofrom o2), o2)) as ->.
+  { destruct e2 as [d o]. cbn in He2. subst o. f_equal. apply (Hkey (d, o2)). apply in_or_app. right. right. exact Hin. }
+  exact Hs.
+Qed.
+
+(* for the executable model: no incomparable applicable from-protocols at one distance => the whole law holds *)
+Definition exec_comparable (c : config) : Prop :=
+  let E := env_of c in
+  froms_comparable (e_sub E) (e_dist E) (e_src E) (filter (usable E []) (e_offers E)).
+
+Lemma exec_no_inversion c : exec_comparable c -> no_inversion (env_of c).
+Proof.
+  intros Hc l1 o1 l2 o2 l3 Hes. cbn [e_order env_of rev] in Hes.
+  pose proof (order_py_no_inversion _ _ _ _ _ _ _ _ _ _ Hc Hes) as H.
+  unfold better, strict_sub. unfold edge_lt in H. cbn [e_dist e_sub e_src env_of] in *.
+  apply orb_false_iff in H. destruct H as [H1 H2]. rewrite H1. cbn [orb].
+  destruct (tbl_dist (c_sub c) (c_mro c) (c_src c) (ofrom o2) =? tbl_dist (c_sub c) (c_mro c) (c_src c) (ofrom o1)); [|reflexivity].
+  cbn [andb] in *. destruct (ofrom o2 =? ofrom o1) eqn:Ef.
+  - apply Nat.eqb_eq in Ef. rewrite Ef. destruct (tbl_sub (c_sub c) (ofrom o1) (ofrom o1)); reflexivity.
+  - cbn [negb andb] in H2. rewrite H2. reflexivity.
+Qed.
+
+Lemma exec_law_when_comparable c : exec_comparable c ->
+  forall fuel a, run_api (env_of c) fuel a <> OOutOfFuel -> law (env_of c) a (run_api (env_of c) fuel a) = [].
+Proof. intros Hc. exact (model_law (env_of c) (env_of_order_perm c) (exec_no_inversion c Hc)). Qed.
+
+(* the twin of the F21 witness without the incomparable offer: the hypotheses hold and the specific offer wins *)
+Definition f21_twin_config : config :=
+  let t := true in let f := false in
+  {| c_sub := [[t;f;f;f;f;f]; [f;t;f;f;f;f]; [f;t;t;f;f;f]; [f;f;f;t;f;f]; [t;t;t;t;t;f]; [f;f;f;f;f;t]];
+     c_mro := [[0]; [1]; [2;1]; [3]; [4;0;2;1;3]; [5]];
+     c_offers := [(1, 5, FAlways); (2, 5, FAlways)];
+     c_src := 4; c_target := 5; c_flag := false |}.
+Lemma comparable_nontrivial :
+  exec_comparable f21_twin_config /\ adapt (env_of f21_twin_config) default_fuel = RAdapter [mk_offer_ 1 2 5].
+Proof.
+  split; [|vm_compute; reflexivity].
+  unfold exec_comparable, froms_comparable.
+  set (l := filter _ _). vm_compute in l. subst l.
+  repeat split.
+  - intros o1 o2 [<-|[<-|[]]] [<-|[<-|[]]] Hn Hs; vm_compute in *; congruence.
+  - intros o1 o2 o3 [<-|[<-|[]]] [<-|[<-|[]]] [<-|[<-|[]]] H1 H2; vm_compute in *; congruence.
+  - intros o1 o2 [<-|[<-|[]]] [<-|[<-|[]]] Hd Hn; vm_compute in *; try congruence; tauto.
+Qed.
